@@ -20,6 +20,7 @@ import (
 	"math/big"
 	"sort"
 	"strings"
+	"unicode/utf8"
 
 	"github.com/pulumi/esc/ast"
 	"github.com/pulumi/esc/internal/util"
@@ -591,11 +592,11 @@ func (e *validator) validateNumber(v json.Number, accept *schema.Schema, loc val
 // validateString checks that accept's string-specific clauses validate v.
 func (e *validator) validateString(v string, accept *schema.Schema, loc validationLoc) bool {
 	ok := true
-	if m := accept.GetMinLength(); m != nil && uint(len(v)) < *m {
+	if m := accept.GetMinLength(); m != nil && uint(utf8.RuneCountInString(v)) < *m {
 		e.errorf(loc, "expected a string of at least length %v", accept.MinLength)
 		ok = false
 	}
-	if m := accept.GetMaxLength(); m != nil && uint(len(v)) > *m {
+	if m := accept.GetMaxLength(); m != nil && uint(utf8.RuneCountInString(v)) > *m {
 		e.errorf(loc, "expected a string of at most length %v", accept.MaxLength)
 		ok = false
 	}
